@@ -51,6 +51,8 @@ class State:
         self.code_lines = {}  # filename -> set(executable lines)
         self.suspend = 0
         self.setattr_events = 0
+        self.skip_ctor_boundary = False
+        self.user_objs = {}  # id -> object constructed directly by a repository test
         self.bad_objs = []  # ill-formed objects already reported (kept alive: ids stay unique)
 
 
@@ -426,6 +428,12 @@ def _wrap_method(cls, name, fn):
             _collect(list(args), objs)
             _collect(list(kwargs.values()), objs)
             _collect(res, objs)
+            if st.skip_ctor_boundary and name in ("__init__", "__post_init__"):
+                if len(st.user_objs) < 200000:
+                    st.user_objs[id(self)] = self
+                objs = []
+            elif st.user_objs:
+                objs = [o for o in objs if id(o) not in st.user_objs]
             if objs:
                 st.suspend += 1
                 try:
